@@ -255,17 +255,53 @@ class IndexList(_Generic):
         return SV(idx)
 
 
-class SubPoints(_Generic):
-    """points[index_list]"""
+class PtsExpr(_Generic):
+    """(len(il), 3) array whose row n is a vector expression of the row position n (points[index_list] and sums / scalar multiples of such)"""
 
-    def __init__(self, pts, il):
-        self.pts, self.il = pts, il
+    def __init__(self, il, vec_at):
+        self.il, self._vec_at = il, vec_at
 
     def __sym_len__(self):
         return self.il.len
 
+    @property
+    def shape(self):
+        return (self.il.len, 3)
+
     def vec_at(self, n):
-        return self.pts.vec(self.il.f(to_z3(n)))
+        return self._vec_at(to_z3(n))
+
+    def _lift(self, o):
+        if isinstance(o, PtsExpr):
+            if o.il is not self.il:
+                raise Unsupported("arithmetic of two point selections made with different index lists")
+            return o.vec_at
+        if is_num(o) or isinstance(o, SV):
+            t = real(to_z3(o)) if isinstance(o, SV) else z3.RealVal(str(__import__("fractions").Fraction(o)))
+            return lambda n: [t, t, t]
+        raise Unsupported(f"point-array arithmetic with {type(o).__name__}")
+
+    def _bin(self, o, f, rev=False):
+        a, b = self.vec_at, self._lift(o)
+        if rev:
+            a, b = b, a
+        return PtsExpr(self.il, lambda n: [f(x, y) for x, y in zip(a(n), b(n))])
+
+    def __add__(self, o): return self._bin(o, lambda x, y: x + y)
+    def __radd__(self, o): return self._bin(o, lambda x, y: x + y, True)
+    def __sub__(self, o): return self._bin(o, lambda x, y: x - y)
+    def __rsub__(self, o): return self._bin(o, lambda x, y: x - y, True)
+    def __mul__(self, o): return self._bin(o, lambda x, y: x * y)
+    def __rmul__(self, o): return self._bin(o, lambda x, y: x * y, True)
+    def __neg__(self): return PtsExpr(self.il, lambda n: [-x for x in self.vec_at(n)])
+
+
+class SubPoints(PtsExpr):
+    """points[index_list]"""
+
+    def __init__(self, pts, il):
+        self.pts = pts
+        PtsExpr.__init__(self, il, lambda n: pts.vec(il.f(n)))
 
 
 class KDTree(_Generic):
@@ -278,9 +314,11 @@ class KDTree(_Generic):
         self.pts = pts
 
     def query_ball_point(self, queries, r, **k):
-        if not isinstance(queries, SubPoints):
+        if not isinstance(queries, PtsExpr):
             raise Unsupported("ball query with this kind of array")
-        return NeighborLists(self, queries, r)
+        nl = NeighborLists(self, queries, r)
+        ctx().__dict__.setdefault("ball_queries", []).append(nl)  # for the caller's contract: which balls were asked for
+        return nl
 
 
 class NeighborLists(_Generic):
@@ -721,7 +759,16 @@ def run_invariant_loop(interp, st, env, n, bind_at, spec, label="loop"):
         cx.oblige(f"inv.init.{label}.{nm}", f, kind="inv")
     u = next(cx.counter)
     k = z3.Int(f"k!{u}")
-    S_raw = {v: FnArr.fresh_fn(f"{v}@k!{u}", objs[v].sort) for v in spec.state}
+    def fresh_raw(tag):
+        """one fresh function per state *object* (two roles of the contract may be played by the same program array)"""
+        by_obj, out = {}, {}
+        for v in spec.state:
+            o = objs[v]
+            if id(o) not in by_obj:
+                by_obj[id(o)] = FnArr.fresh_fn(f"{v}@{tag}", o.sort)
+            out[v] = by_obj[id(o)]
+        return out
+    S_raw = fresh_raw(f"k!{u}")
     S = {v: view(v, S_raw[v]) for v in spec.state}
     for sname, sort in scalars.items():
         S[sname] = cx.fresh(f"{sname}@k", sort)
@@ -756,7 +803,7 @@ def run_invariant_loop(interp, st, env, n, bind_at, spec, label="loop"):
             cx.oblige(f"inv.preserve.{label}.{nm}" + (f".{j}" if j else ""), part, kind="inv")
     del cx.pc[n_pc:]
     cx._solver = None
-    S2_raw = {v: FnArr.fresh_fn(f"{v}@exit!{u}", objs[v].sort) for v in spec.state}
+    S2_raw = fresh_raw(f"exit!{u}")
     S2 = {v: view(v, S2_raw[v]) for v in spec.state}
     for sname, sort in scalars.items():
         S2[sname] = cx.fresh(f"{sname}@exit", sort)
